@@ -456,3 +456,79 @@ Theorem steps5_sim FF orc args p p' :
 Proof.
   intros H Hw. apply (trace_FF_sim FF); [apply known_in_FF; exact Hw|]. exact (steps5_preserve FF orc args p p' H).
 Qed.
+
+(* ---- with FF := the field sets of the program itself, the hypotheses are full_field_form p ----------- *)
+Lemma In_insert_sorted x l y : In y (insert_sorted x l) <-> y = x \/ In y l.
+Proof.
+  induction l as [|z l IH]; simpl; [intuition (subst; auto)|].
+  destruct (Nat.ltb x z); [simpl; intuition (subst; auto)|].
+  destruct (Nat.eqb x z) eqn:E.
+  - apply Nat.eqb_eq in E. subst z. simpl. intuition (subst; auto).
+  - simpl. rewrite IH. intuition (subst; auto).
+Qed.
+
+Lemma In_sort_dedup l y : In y (sort_dedup l) <-> In y l.
+Proof.
+  unfold sort_dedup. induction l as [|x l IH]; simpl; [tauto|]. rewrite In_insert_sorted, IH. intuition (subst; auto).
+Qed.
+
+Lemma stmt_setups_for a iv lb ub sp its rs body ys :
+  stmt_setups a (SFor iv lb ub sp its rs body ys) = block_setups a body.
+Proof.
+  cbn [stmt_setups]. unfold block_setups. induction body as [|x b IH]; [reflexivity|]. cbn [flat_map]. rewrite <- IH. reflexivity.
+Qed.
+Lemma stmt_setups_if a c rs th thy el ely :
+  stmt_setups a (SIf c rs th thy el ely) = block_setups a th ++ block_setups a el.
+Proof.
+  cbn [stmt_setups]. unfold block_setups. f_equal.
+Qed.
+
+Lemma within_of_setups FF : forall b,
+  (forall a fs f, In fs (block_setups a b) -> In f (map fst fs) -> In f (FF a)) -> within_block FF b = true.
+Proof.
+  apply (block_ind2 (fun s => (forall a fs f, In fs (stmt_setups a s) -> In f (map fst fs) -> In f (FF a)) -> within_stmt FF s = true)
+                    (fun b => (forall a fs f, In fs (block_setups a b) -> In f (map fst fs) -> In f (FF a)) -> within_block FF b = true));
+    try (intros; reflexivity).
+  - intros a o i fs H. simpl. apply forallb_forall. intros f Hf. apply mem_nat_In.
+    apply (H a fs f); [simpl; rewrite Nat.eqb_refl; left; reflexivity|exact Hf].
+  - intros iv lb ub sp its rs body ys IH H. rewrite within_stmt_for. apply IH. intros a fs f Hin. apply H. rewrite stmt_setups_for. exact Hin.
+  - intros c rs th thy el ely IHt IHe H. rewrite within_stmt_if. rewrite IHt, IHe; [reflexivity| |].
+    + intros a fs f Hin. apply H. rewrite stmt_setups_if. apply in_app_iff. right. exact Hin.
+    + intros a fs f Hin. apply H. rewrite stmt_setups_if. apply in_app_iff. left. exact Hin.
+  - intros s b Hs Hb H. simpl. rewrite Hs, Hb; [reflexivity| |].
+    + intros a fs f Hin. apply H. unfold block_setups. cbn [flat_map]. apply in_app_iff. right. exact Hin.
+    + intros a fs f Hin. apply H. unfold block_setups. cbn [flat_map]. apply in_app_iff. left. exact Hin.
+Qed.
+
+Theorem within_FF_of p : within_block (FF_of p) (p_body p) = true.
+Proof.
+  apply within_of_setups. intros a fs f Hin Hf. unfold FF_of, prog_fields. apply In_sort_dedup.
+  apply in_flat_map. exists fs. split; assumption.
+Qed.
+
+Lemma ff_block_is_ffF all : forall b prev, ff_block all prev b = ffF_block (fun a => prog_fields a all) prev b.
+Proof.
+  set (FF := fun a => prog_fields a all).
+  assert (Hfor : forall prev body, (fix blk (prev : option stmt) (b : list stmt) {struct b} : bool :=
+                     match b with [] => true | x :: b' => ff_stmt all prev x && blk (Some x) b' end) prev body
+                   = ff_block all prev body).
+  { intros prev body. revert prev. induction body as [|x b IH]; intros prev; [reflexivity|]. cbn [ff_block]. rewrite <- IH. reflexivity. }
+  apply (block_ind2 (fun s => forall prev, ff_stmt all prev s = ffF_stmt FF prev s)
+                    (fun b => forall prev, ff_block all prev b = ffF_block FF prev b));
+    try (intros; reflexivity).
+  - intros iv lb ub sp its rs body ys IH prev. rewrite ffF_stmt_for. cbn [ff_stmt]. rewrite Hfor. apply IH.
+  - intros c rs th thy el ely IHt IHe prev. rewrite ffF_stmt_if. cbn [ff_stmt]. rewrite !Hfor. rewrite IHt, IHe. reflexivity.
+  - intros s b Hs Hb prev. cbn [ff_block ffF_block]. rewrite Hs, Hb. reflexivity.
+Qed.
+
+(* pull_preserves, as stated in the first rounds: under full_field_form *)
+Theorem pull_preserves G orc a fresh tg p p' args :
+  full_field_form p = true -> rule_pull_g G a fresh tg p = Some p' ->
+  gok_prog G p = true -> gok_prog G p' = true ->
+  trace_sim_b (run orc p args) (run orc p' args) = true.
+Proof.
+  intros Hff H Hg Hg'. apply (rule_pull_g_sim (FF_of p) G orc a fresh tg p p' args H).
+  - unfold pull_hyp. rewrite H. unfold full_field_form in Hff. rewrite ff_block_is_ffF in Hff.
+    unfold FF_of. rewrite Hff, Hg, Hg'. reflexivity.
+  - apply within_FF_of.
+Qed.
